@@ -15,6 +15,7 @@ SPEC = {"module": "models.ormmodel", "profile": "handwritten", "order": [], "cla
     {"name": "Port", "parent": None, "fields": [f("uid", "int"), f("shape", "opt_ref", "ShapeBase")]},
     {"name": "ShapeBase", "parent": None, "fields": [f("uid", "int"), f("name", "str"), f("ports", "list_ref", "Port")]},
     {"name": "Circle", "parent": "ShapeBase", "fields": [f("r", "float"), f("center", "opt_ref", "Vec")]},
+    {"name": "Ring", "parent": "Circle", "fields": [f("thick", "float")]},
     {"name": "Sheet", "parent": None, "fields": [f("uid", "int"), f("shapes", "list_ref", "ShapeBase")]},
 ]}
 SPEC["order"] = [c["name"] for c in SPEC["classes"]]
